@@ -344,7 +344,7 @@ def run_checked(ctx):
         "the pass in which a deferred notification is delivered is not part of the property: the trace spec lets every queued "
         "notification be delivered in any later pass (FIFO, before it has waited 3 ticks); a timer that is due may see one more tick",
         "compared per pass: root state()/result() exactly; descendants only as running / paused / at rest; probe-leaf starts as a "
-        "sequence, all other hook/final/root callbacks as a multiset",
+        "sequence, all other hook/final/root callbacks as a multiset; probe-leaf reset hooks are not compared (when a child at rest is reset is open)",
         "where the headers are silent the model mirrors the code: an action timeout restarts from its full interval on resume, keeps "
         "running while the action is blocked; reset() of an under-way tree runs no final hook; a held result whose re-posted replay "
         "meets a second pause is held again, except for then/else/case/composite children whose replay finishes the parent",
